@@ -257,8 +257,45 @@ type replNode struct {
 	name string
 	dir  string
 	eng  *engine.EngineFacade
+	fe   *replFailEngine
+	arm  map[string]bool // keys whose next replicated apply fails once (survives a restart of the node)
 	mgr  *replication.Manager
 	addr string
+}
+
+// replFailEngine: the replica's engine as the replication manager sees it. One replicated put / delete of an armed key
+// fails once (a transient apply failure: the disk was full for a moment, the log was rotating); everything else goes
+// straight to the real engine.
+type replFailEngine struct {
+	*engine.EngineFacade
+	mu     sync.Mutex
+	armed  map[string]bool
+	failed int
+}
+
+func (f *replFailEngine) trip(key []byte) bool {
+	f.mu.Lock()
+	defer f.mu.Unlock()
+	if f.armed[string(key)] {
+		delete(f.armed, string(key))
+		f.failed++
+		return true
+	}
+	return false
+}
+
+func (f *replFailEngine) PutInternal(key, value []byte) error {
+	if f.trip(key) {
+		return errors.New("injected transient apply failure")
+	}
+	return f.EngineFacade.PutInternal(key, value)
+}
+
+func (f *replFailEngine) DeleteInternal(key []byte) error {
+	if f.trip(key) {
+		return errors.New("injected transient apply failure")
+	}
+	return f.EngineFacade.DeleteInternal(key)
 }
 
 type replFaultClient struct {
@@ -387,6 +424,10 @@ func (w *replWorld) startReplica(name string) string {
 		return "err open " + errTok(err)
 	}
 	n.eng = e
+	if n.arm == nil {
+		n.arm = map[string]bool{}
+	}
+	n.fe = &replFailEngine{EngineFacade: e, armed: n.arm}
 	mc := &replication.ManagerConfig{Enabled: true, Mode: replication.ReplicationModeReplica, PrimaryAddr: w.prim.addr, ListenAddr: n.addr, ForceReadOnly: true}
 	if !prod {
 		rc := replication.DefaultReplicaConfig()
@@ -394,7 +435,7 @@ func (w *replWorld) startReplica(name string) string {
 		rc.Connection.DialTimeout = 3 * time.Second
 		mc.ReplicaConfig = rc
 	}
-	m, err := replication.NewManager(e, mc)
+	m, err := replication.NewManager(n.fe, mc)
 	if err != nil {
 		return "err manager " + errTok(err)
 	}
@@ -682,6 +723,13 @@ func (w *replWorld) write(ws []string) error {
 	switch ws[0] {
 	case "put":
 		return e.Put(unhx(ws[1]), unhx(ws[2]))
+	case "putbig": // putbig <key> <size>: a value of that many bytes (deterministic pattern)
+		n, _ := strconv.Atoi(ws[2])
+		v := make([]byte, n)
+		for i := range v {
+			v[i] = byte(i*7 + n)
+		}
+		return e.Put(unhx(ws[1]), v)
 	case "del":
 		return e.Delete(unhx(ws[1]))
 	case "tx":
@@ -761,7 +809,24 @@ func (w *replWorld) step(ws []string) (out string) {
 			return s
 		}
 		return w.startReplica(ws[1])
-	case "put", "del", "tx", "burst", "burstdel", "flush":
+	case "failapply": // failapply <replica> <key>: the next replicated apply of this key on that replica fails once
+		n := w.reps[ws[1]]
+		if n == nil {
+			n = &replNode{name: ws[1], dir: filepath.Join(w.base, "replica-"+ws[1]), addr: "replica-" + ws[1] + ":7", arm: map[string]bool{}}
+			w.reps[ws[1]] = n
+		}
+		if n.arm == nil {
+			n.arm = map[string]bool{}
+		}
+		if n.fe != nil {
+			n.fe.mu.Lock()
+			n.arm[string(unhx(ws[2]))] = true
+			n.fe.mu.Unlock()
+		} else {
+			n.arm[string(unhx(ws[2]))] = true
+		}
+		return "ok"
+	case "put", "putbig", "del", "tx", "burst", "burstdel", "flush":
 		err, blocked, _ := replGuarded(2*replWatchdog, func() error { return w.write(ws) })
 		if blocked {
 			w.cause = replDiagnoseBlock()
@@ -1247,7 +1312,7 @@ func replGenTx(g *gen, w *bufio.Writer, m int) {
 	fmt.Fprintln(w, strings.Join(parts, " "))
 }
 
-var replClassesQuick = []string{"after", "before", "during", "restart", "two", "tx1", "prod", "txmulti", "rotate", "onelate", "cleancatchup", "cleanpush", "sustained", "txcut"}
+var replClassesQuick = []string{"after", "before", "during", "restart", "two", "tx1", "prod", "txmulti", "rotate", "onelate", "cleancatchup", "cleanpush", "sustained", "txcut", "bigvalues", "applyfail", "bigvalues"}
 var replClassesThorough = append(append([]string{}, replClassesQuick...), "after", "before", "during", "restart", "txmulti", "rotatemem", "txsplit", "mixed")
 
 func genRepl(g *gen, n int, tier string, w *bufio.Writer) {
@@ -1281,6 +1346,64 @@ func genReplCase(g *gen, w *bufio.Writer, class string, big bool) {
 		replGenMixedOps(g, w, 20+g.intn(40), true)
 		fmt.Fprintf(w, "burstdel %d %d\n", 10+g.intn(30), g.intn(100))
 		fmt.Fprintln(w, "join a")
+		fmt.Fprintln(w, "await a")
+	case "bigvalues": // values at the log's fragment boundaries, many medium values, one value above 1 MB; the replica joins late or early
+		hdr("converge", "")
+		late := g.chance(1, 2)
+		if !late {
+			fmt.Fprintln(w, "join a")
+			fmt.Fprintln(w, "idle a 5000")
+		}
+		replGenMixedOps(g, w, 5+g.intn(10), false)
+		for i, n := 0, 4+g.intn(5); i < n; i++ {
+			k := []byte(fmt.Sprintf("big%02d", i))
+			size := 0
+			kind := g.intn(5)
+			if i == 0 && g.chance(1, 2) {
+				kind = 3
+			}
+			switch kind {
+			case 0: // the whole record is a multiple of the physical record size
+				size = g.pick(1, 2, 3)*32768 - 17 - len(k) + g.pick(-1, 0, 1)
+			case 1: // what follows the first fragment is a multiple of it
+				size = g.pick(1, 2, 3)*32768 - 4 + g.pick(-1, 0, 0, 1)
+			case 2:
+				size = g.pick(32768, 65536, 100000) + g.pick(-1, 0, 1, 4)
+			case 3:
+				size = 1100000 + g.intn(300000)
+			default:
+				size = 20000 + g.intn(20000)
+			}
+			fmt.Fprintf(w, "putbig %s %d\n", hx(k), size)
+			if g.chance(1, 2) {
+				replGenMixedOps(g, w, 1+g.intn(5), true)
+			}
+		}
+		if g.chance(1, 2) {
+			for i := 0; i < 40; i++ { // many medium values: several poll rounds by volume
+				fmt.Fprintf(w, "putbig %s %d\n", hx([]byte(fmt.Sprintf("med%02d", i))), 30000)
+			}
+		}
+		replGenMixedOps(g, w, 5+g.intn(10), true)
+		if late {
+			fmt.Fprintln(w, "join a")
+		}
+		fmt.Fprintln(w, "await a")
+	case "applyfail": // one replicated entry fails to apply once on the replica (transient): it must be applied later, nothing skipped
+		hdr("converge", "")
+		late := g.chance(1, 2)
+		n := 20 + g.intn(60)
+		victim := g.intn(n)
+		fmt.Fprintf(w, "failapply a %s\n", hx(replBurstKey(victim)))
+		if !late {
+			fmt.Fprintln(w, "join a")
+			fmt.Fprintln(w, "idle a 5000")
+		}
+		fmt.Fprintf(w, "burst %d 0 %d\n", n, 8+g.intn(40))
+		replGenMixedOps(g, w, 5+g.intn(20), false)
+		if late {
+			fmt.Fprintln(w, "join a")
+		}
 		fmt.Fprintln(w, "await a")
 	case "before": // the replica is connected and idle, then the primary writes
 		hdr("converge", "")
